@@ -120,8 +120,8 @@ def check(ctx):
     r_grammar_words(ctx, 'R04.4')
     r_reviewed_grammar(ctx, 'R04.6')
     group_rule(ctx, 'R04.7', PARSERS, 'parse-tree construction (every PestParse::parse): which child becomes which field, in which order', 30)
-    ctx.floor('R04.1', 'front-end functions with a decision table', f, 55)
-    ctx.floor('R04.1', 'decision rows', n, 300)
+    ctx.floor('R04.1', 'front-end functions with a decision table', f, 40)
+    ctx.floor('R04.1', 'decision rows', n, 200)
     from . import c03
     c03.r_binders(ctx, 'R04.3')
     r_zip(ctx, 'R04.2')
@@ -205,4 +205,4 @@ def r_zip(ctx, rid):
                 continue
             n += 1
             ctx.ob(rid, key, ok, 'zipped sequences have equal length (or one is infinite)', fn.where(), seen.get(key + '#why'))
-    ctx.floor(rid, 'zip sites', n, 5)
+    ctx.floor(rid, 'zip sites', n, 3)
